@@ -216,6 +216,7 @@ def c11_vocab(run):
     rf_bounds.rf88(run)
     rf_vocab.rf85b(run)
     rf_vocab.rf115(run)
+    rf_vocab.rf121(run)
 
 
 def c10_vocab(run):
@@ -247,6 +248,7 @@ def c17_rf2(run):
     run.min_instances('RF78', 30)
     rf_alloc.rf78b(run, units=('gen', 'mir'))
     rf_alloc.rf109(run)
+    rf_alloc.rf122(run)
     run.min_instances('RF78b', 20)
 
 
@@ -369,6 +371,7 @@ def c16_rf16(run):
     rf_iface.rf42b(run)
     rf_inline.rf56(run)
     rf_proto.rf107(run)
+    rf_proto.rf120(run)
     rf_proto.rf66(run)
     run.min_instances('RF66', 4)
     rf_x86.rf77(run)
